@@ -127,7 +127,7 @@ class Ref:
         return tag, raised
 
     def can_start(self):
-        return self.state in ("INITIALIZED", "STOPPED") and self.clock < self.end
+        return self.state in ("INITIALIZED", "STOPPED") and self.clock <= self.end
 
     def run(self, bound=None, including=True, stop_after=None):
         """one run segment; returns the list of trace entries executed in it.
